@@ -27,6 +27,9 @@ type connCase struct {
 	End     string         `json:"end"`
 	Kind    string         `json:"kind"`
 	Note    string         `json:"note,omitempty"`
+	// Poison: one odd connection served first; the measured connections are the ordinary
+	// ones after it (state an earlier client left behind must not make later ones leak)
+	Poison *connCase `json:"poison,omitempty"`
 }
 
 func (c connCase) wire() svc.WireScript {
@@ -226,6 +229,11 @@ func releaseOnce(cc connCase) (bool, error) {
 		}
 		return false, fmt.Errorf("infra: %v", e)
 	}
+	if cc.Poison != nil {
+		if _, _, e := runN(c, *cc.Poison, 1); e != nil {
+			return fail(e)
+		}
+	}
 	// warm-up (lazy initialisation happens once, it is not a per-connection cost)
 	t0 := time.Now()
 	if _, _, e := runN(c, cc, 2); e != nil {
@@ -361,6 +369,19 @@ func genConn(t *rapid.T) connCase {
 	}
 	c.Seg = rapid.SampledFrom([]string{"units", "single"}).Draw(t, "seg")
 	c.End = rapid.SampledFrom([]string{"close", "close", "reset"}).Draw(t, "end")
+	if c.Kind == "grammar" && c.SSH == nil && rapid.IntRange(0, 2).Draw(t, "poisoned") == 0 {
+		// history: an odd client first, then ordinary ones
+		tr := svc.GenTraffic(t, c.Service)
+		if tr.SSH == nil && tr.UDP == c.UDP {
+			units := tr.Units
+			note := "grammar"
+			if rapid.Bool().Draw(t, "poisonmut") {
+				units, note = svc.Mutate(t, units)
+			}
+			c.Poison = &connCase{Service: c.Service, UDP: c.UDP, Units: hexUnits(units), Seg: "units", End: "close", Kind: "poison", Note: note}
+			c.Kind = "after-odd-client"
+		}
+	}
 	return c
 }
 
@@ -505,4 +526,78 @@ func TestSilence(t *testing.T) {
 			r.Violation(t, "TestSilence", k, fmt.Sprintf("%s: connection silent at stage %q is still open 135 s after its last byte (idle timeout is 30 s)", k.Service, k.Stage))
 		}
 	}
+}
+
+// TestSpin is the cheap, wide variant: many single connections, and after each the idle
+// process must not be burning CPU; a suspicion is confirmed (and attributed) by the full
+// measurement of TestRelease's oracle on that connection script.
+func TestSpin(t *testing.T) {
+	t.Parallel()
+	r := vlib.Open(prop)
+	if vlib.Replaying() {
+		return // reported and replayed as TestRelease cases
+	}
+	r.Rule("spin search: one generated connection (grammar / mutated / raw) per case against a lab child of its own, then an 80 ms idle window: more than 60 ms of process CPU in it is a suspicion, confirmed by the full release measurement (fresh child, attribution) before it is reported")
+	c, err := svc.StartChild(nil)
+	if err != nil {
+		t.Fatalf("infra: %v", err)
+	}
+	defer func() { c.Stop() }()
+	served := 0
+	r.Rapid(t, "TestRelease", r.Pick(250, 4000), func(rt *rapid.T) {
+		cc := genConn(rt)
+		cc.Poison = nil
+		if cc.Kind == "after-odd-client" {
+			cc.Kind = "grammar"
+		}
+		if !c.Alive() || served > 400 {
+			c.Stop()
+			if c, err = svc.StartChild(nil); err != nil {
+				rt.Fatalf("infra: %v", err)
+			}
+			served = 0
+		}
+		served++
+		resp, e := c.Do(svc.Request{Op: "run", Scripts: []svc.WireScript{cc.wire()}, WaitMs: 3000}, 120*time.Second)
+		if e != nil {
+			c.Stop()
+			c, _ = svc.StartChild(nil)
+			r.Label("inconclusive-process-died-or-hung(see C01)", 1)
+			return
+		}
+		nt := false
+		for _, cr := range resp.Conns {
+			if cr.Events > 0 || cr.Replies > 0 || cr.Consumed > 0 {
+				nt = true
+			}
+		}
+		fp := ""
+		if nt {
+			fp = vlib.JSON(cc)
+		}
+		r.Case(fmt.Sprintf("spin/%s/%s", cc.Service, cc.Kind), fp, func() interface{} {
+			return map[string]interface{}{"service": cc.Service, "kind": cc.Kind, "note": cc.Note}
+		})
+		m0, e0 := c.Do(svc.Request{Op: "mem"}, 30*time.Second)
+		time.Sleep(80 * time.Millisecond)
+		m1, e1 := c.Do(svc.Request{Op: "mem"}, 30*time.Second)
+		if e0 != nil || e1 != nil {
+			return
+		}
+		if m1.Stats.CPUMs-m0.Stats.CPUMs <= 60 {
+			return
+		}
+		// suspicion: this child is spinning. Confirm on fresh children with the full oracle.
+		c.Stop()
+		c, _ = svc.StartChild(nil)
+		served = 0
+		r.Label("spin/suspicions-confirmed-with-full-measurement", 1)
+		dropChild()
+		history = nil
+		if _, err := releaseOnce(cc); verdict(err) {
+			dropChild()
+			r.Fail(rt, "TestRelease", cc, "%v", err)
+		}
+		dropChild()
+	})
 }
